@@ -6,20 +6,28 @@ import ast
 from sa.astx import call_name, src, statements
 from sa.selftest import Mutant, Silent
 from sa.source import AnalysisError
-from sa.props._lib_i import sect, COMPAT, BlockRaised, FollowModule, Raised, interp, module_env, words
+from sa.props._lib_i import sect, COMPAT, BlockRaised, FollowModule, Raised, domain_argument, interp, kinded, module_env, words
 
 PROPERTY = "C46"
+RULE_KINDS = {
+    "entry/": "structural",
+    # complete unit / (state x unit x next unit) domains, premise checked on the code
+    "quote/escape-form": "finite-exhaustive", "quote/escaper-order": "finite-exhaustive", "quote/covers-reader-specials": "finite-exhaustive", "tokenize/transition": "finite-exhaustive",
+    "quote/escape-form (bounded)": "bounded", "quote/escaper-order (bounded)": "bounded", "tokenize/transition (bounded)": "bounded",
+    "roundtrip/": "bounded",
+}
 EP = "internet/endpoints.py"
-TECHNIQUE = "writer/reader metacharacter agreement + exhaustive short-text round trip by evaluation"
+TECHNIQUE = "finite-exhaustive writer/reader unit domains with premises checked; bounded round trip"
 EXPLANATION = (
-    "Writer: quoteStringArgument's ordered rewrite system must escape the escape unit first, produce escape+unit for every row and "
-    "cause no double escaping. Reader: the loop body of _tokenize is evaluated as a (separator-state, unit) transition table - a unit "
-    "in the current separator set ends the token and switches the set, a backslash appends the next unit literally, anything else is "
-    "appended; every unit the reader treats specially in any state (':', '=', backslash) must be in the writer's escaped set "
-    "(F46: '=' was missing; fixed, reverted by a mutant). Round trip: _parse(_tokenize(...)) is evaluated on descriptions with "
-    "quoteStringArgument(t) inserted as first / middle / last positional argument and as keyword value, for every text t over "
-    "{':', '=', backslash, other}^<=3: the parsed args / kwargs must contain exactly t at that position. serverFromString and "
-    "clientFromString must hand the unmodified description to _parse. Not decided: per-endpoint conversion of the parsed strings."
+    'FINITE-EXHAUSTIVE (premises checked on the code): quoteStringArgument only rewrites single units, so evaluating it on '
+    'every printable ASCII unit (plus TAB, LF, a non-ASCII one) and on the orderings of the escaped units is complete - eac'
+    'h escaped unit becomes escape + unit with one escape unit and no double escaping; _tokenize takes its decisions from t'
+    "he current unit, constants and its own state, a machine over (separator set) x ({':', '=', backslash, other}) x (next "
+    'unit): every description over that alphabet up to length 4 equals the documented tokenizer; every unit the tokenizer t'
+    "reats specially in either separator state is escaped by the writer (F46: '=' was missing; fixed). STRUCTURAL: serverFr"
+    'omString, _parseServer and clientFromString pass their description unchanged to the parser on every path. BOUNDED only'
+    ': _parse(_tokenize(...)) with quoteStringArgument(t) as first / last positional and keyword argument for texts <= 3 ov'
+    'er the alphabet plus white space / non-ASCII samples. Not decided: per-endpoint conversion of the parsed strings.'
 )
 ASSUMPTIONS = ["_matchingString / iterbytes / nativeString behave as documented in twisted.python.compat (modelled)",
                "texts are str (quoteStringArgument is documented for str)"]
@@ -48,6 +56,12 @@ def check(ctx):
         fq = ctx.func(EP, "quoteStringArgument")
         q = base + "quoteStringArgument"
         quote = interp(fq, funcs, env0)
+        q_methods = {c.func.attr for c in ast.walk(fq) if isinstance(c, ast.Call) and isinstance(c.func, ast.Attribute)}
+        ex_q = q_methods <= {"replace", "sub", "join"} and not any(isinstance(x, (ast.While,)) for x in ast.walk(fq))
+        why_q = ("the quoter only rewrites single units (.replace / regex over one character class / per-character join): it acts character-wise, so every single unit plus the "
+                 "orderings of the escaped units is a complete domain" if ex_q else "premise of exhaustiveness not established on this shape: bounded evidence")
+        if not ex_q:
+            ctx.note(f"{q}: {why_q}")
         units = [chr(c) for c in range(0x20, 0x7F)] + ["\t", "\n", "\u00e9"]
         outs = {}
         for u in units:
@@ -57,13 +71,13 @@ def check(ctx):
             outs[u] = got
         written = {u for u in units if outs[u] != u}
         escs = {outs[u][0] for u in written if isinstance(outs[u], str) and len(outs[u]) == 2 and outs[u][1] == u}
-        ctx.check(len(escs) == 1 and all(len(outs[u]) == 2 and outs[u][1] == u for u in written), "quote/escape-form", q,
+        ctx.check(len(escs) == 1 and all(len(outs[u]) == 2 and outs[u][1] == u for u in written), kinded("quote/escape-form", ex_q), q,
                   f"rewrites { {u: outs[u] for u in sorted(written)} !r} are not all of the form unit -> escape + unit with one escape unit")
         esc = next(iter(escs)) if len(escs) == 1 else "\\"
         for t in ("".join(sorted(written)), "".join(sorted(written, reverse=True)), esc + esc + ":", "a" + esc):
             got, err = _call(quote, t)
             want = "".join((esc + c) if c in written else c for c in t)
-            ctx.check(err is None and got == want, "quote/escaper-order", f"{q} | {t!r}",
+            ctx.check(err is None and got == want, kinded("quote/escaper-order", ex_q), f"{q} | {t!r}",
                       f"quoteStringArgument({t!r}) gives {(got if err is None else err)!r} instead of {want!r}: the escape unit must be escaped first, else the "
                       "backslashes added for other characters are doubled (or the escape unit itself is not escaped)")
 
@@ -73,6 +87,13 @@ def check(ctx):
         q = base + "_tokenize"
         tok = interp(ft, funcs, env0)
         S, O = env0["_STRING"], env0["_OP"]
+        t_state = {t.id for st in ast.walk(ft) if isinstance(st, (ast.Assign, ast.AugAssign)) for t in (st.targets if isinstance(st, ast.Assign) else [st.target]) if isinstance(t, ast.Name)}
+        ex_t, why_t = domain_argument([ft], inputs={a.arg for a in ft.args.args} | {n.id for st in ast.walk(ft) if isinstance(st, ast.For) for n in ast.walk(st.target) if isinstance(n, ast.Name)},
+                                      state=t_state, helpers={h.name for h in mod.tree.body if isinstance(h, ast.FunctionDef)})
+        why_t = (why_t + ": the tokenizer is a machine over (separator set) x (unit class {':', '=', backslash, other}) x (next unit), every such triple occurs in a description of "
+                 "length <= 4") if ex_t else f"premise of exhaustiveness not established ({why_t}): bounded evidence"
+        if not ex_t:
+            ctx.note(f"{q}: {why_t}")
 
         def ref_tokens(text):
             """The documented tokenizer: ':' and '=' separate (after '=' only ':' does, until the next ':'), a backslash makes the next unit literal."""
@@ -102,9 +123,9 @@ def check(ctx):
             if err is not None or list(got) != want:
                 bad = (text, list(got) if err is None else err, want)
                 break
-        ctx.check(bad is None, "tokenize/transition", q,
+        ctx.check(bad is None, kinded("tokenize/transition", ex_t), q,
                   bad and f"_tokenize({bad[0]!r}) yields {bad[1]!r}; the documented tokenizer yields {bad[2]!r} (separators end a token, a backslash makes the next unit literal "
-                  "and is itself dropped)", detail=f"{n_words} descriptions over {{':', '=', backslash, 'a', 'b'}}^<=4")
+                  "and is itself dropped)", detail=f"{n_words} descriptions over {{':', '=', backslash, 'a', 'b'}}^<=4; " + why_t)
     # ---- K10: every unit the reader treats specially is escaped by the writer ---------------------------------------------------------
     with sect(ctx, 'K10: every unit the reader treats specially is escaped by the writer'):
         ft = ctx.func(EP, "_tokenize")
